@@ -79,6 +79,10 @@ type Manager struct {
 	// Local tracking
 	subscribers   map[uint64]*Binding
 	subscribersMu sync.RWMutex
+
+	// bindingsMu serialises the read-modify-write of subscriber_bindings entries
+	// (AddBinding and AddBindingV6 each preserve the other family's half)
+	bindingsMu sync.Mutex
 }
 
 // Binding tracks a subscriber's allowed addresses
@@ -204,6 +208,9 @@ func (m *Manager) AddBinding(mac net.HardwareAddr, ipv4 net.IP) error {
 
 	macKey := macToUint64(mac)
 
+	m.bindingsMu.Lock()
+	defer m.bindingsMu.Unlock()
+
 	binding := SubscriberBinding{
 		Mode: uint8(m.mode),
 	}
@@ -259,6 +266,9 @@ func (m *Manager) AddBindingV6(mac net.HardwareAddr, ipv6 net.IP) error {
 
 	macKey := macToUint64(mac)
 
+	m.bindingsMu.Lock()
+	defer m.bindingsMu.Unlock()
+
 	// First get existing binding
 	var existing SubscriberBinding
 	if m.bindings != nil {
@@ -294,6 +304,9 @@ func (m *Manager) AddBindingV6(mac net.HardwareAddr, ipv6 net.IP) error {
 // RemoveBinding removes a subscriber's binding
 func (m *Manager) RemoveBinding(mac net.HardwareAddr) error {
 	macKey := macToUint64(mac)
+
+	m.bindingsMu.Lock()
+	defer m.bindingsMu.Unlock()
 
 	if m.bindings != nil {
 		m.bindings.Delete(&macKey)
